@@ -44,7 +44,8 @@ let parse_fields toks = List.map (fun t -> match String.index_opt t '=' with
 (* child templates "script:ntasks:chain,..." *)
 let tmpls_of_string s =
   List.map (fun p -> match split_on ':' p with
-      | [sc; n; c] -> { tp_script = nat_s sc; tp_ntasks = nat_s n; tp_chain = b01 c }
+      | [sc; n; c] -> { tp_script = nat_s sc; tp_ntasks = nat_s n; tp_chain = b01 c; tp_blocking = false }
+      | [sc; n; c; b] -> { tp_script = nat_s sc; tp_ntasks = nat_s n; tp_chain = b01 c; tp_blocking = b01 b }
       | _ -> failwith ("tmpl " ^ p)) (split_on ',' s)
 
 let parse_stage toks =
@@ -62,7 +63,11 @@ let parse_stage toks =
                List.init (int_of_string (f "tasks")) (fun t -> mk_task (List.mem t dis)));
     s_syn = { y_parent = None; y_owner = None; y_script = nat_s (f "script"); y_ntasks = O;
               y_before = tmpls_of_string (fo "before" ""); y_after = tmpls_of_string (fo "after" "");
-              y_fail = tmpls_of_string (fo "fail" "") };
+              y_fail = tmpls_of_string (fo "fail" ""); y_blocking = b01 (fo "blocking" "0");
+              y_milestone = (match fo "milestone" "-" with
+                             | "-" -> None
+                             | v -> (match split_on ':' v with [m; st] -> Some (nat_s m, status_of_string st) | _ -> failwith ("milestone " ^ v)));
+              y_expired = b01 (fo "expired" "0") };
     s_onfail = false }
 
 let parse_step s =
